@@ -1,7 +1,7 @@
 (* C07 — Slashing burns exactly the stated fraction and never more than the stake. Statements only. *)
 From Coq Require Import List ZArith NArith Bool.
 From PM Require Import Base.Bytes Store.KV Store.MergeProofs Num.IntModel Num.DecModel Num.DecProofs
-  App.Model App.BankProofs App.TxProofs App.KeyProofs App.Examples.
+  App.Model App.BankProofs App.TxProofs App.KeyProofs App.PoolProofs App.PoolExact App.SlashExact App.Examples.
 Import ListNotations.
 Local Open Scope Z_scope.
 
@@ -17,6 +17,25 @@ Theorem C07_force_unstake_conserves s a v s' : bank_ok s -> force_unstake s a v 
 Proof. exact (force_unstake_pres s a v s'). Qed.
 Theorem C07_double_sign_conserves s a h t p s' : bank_ok s -> handle_double_sign s a h t p = Some s' -> bank_ok s'.
 Proof. exact (handle_double_sign_pres s a h t p s'). Qed.
+(* the whole effect of one slash, in any state satisfying the pool invariant (every reachable state: C04): exactly
+   D = min(trunc(p*10^6*f), stake) - or the whole stake when the remainder falls below the minimum stake - leaves the
+   validator's record, the staked pool and the supply; nobody else's balance, no other validator's record changes; a
+   non-positive amount changes nothing (App/SlashExact.v) *)
+Theorem C07_slash_exact MA s a h p f v amount d sa : pool_ok MA s -> get_val s a = Some v -> v_status v <> 0%N ->
+  (f <? 0) = false -> (height s <? h) = false ->
+  tokens_from_power p = Some amount -> dec_mul (dec_from_int amount) f = Some d -> dec_truncate_int d = Some sa ->
+  let burn := Z.max (Z.min sa (v_tokens v)) 0 in
+  (burn = 0 -> exists x, slash s a h p f = SErr x /\ accts x = accts s /\ supply x = supply s /\ forall b, get_val x b = get_val s b) /\
+  (0 < burn -> exists s', slash s a h p f = SOk s' /\
+     removed MA s s' a (if v_tokens v - burn <? p_min_stake (pp s) then v_tokens v else burn)).
+Proof. exact (slash_exact MA s a h p f v amount d sa). Qed.
+Theorem C07_removed_reading MA s s' a D : removed MA s s' a D ->
+  supply s' = supply s - D /\ bal s' (m_pool MA) = bal s (m_pool MA) - D /\ (forall x, x <> m_pool MA -> bal s' x = bal s x) /\
+  (exists v v', get_val s a = Some v /\ get_val s' a = Some v' /\ stk v' = stk v - D) /\ (forall b, b <> a -> get_val s' b = get_val s b).
+Proof. intros (A & B & C & (v & v' & E1 & E2 & K & _) & R). repeat split; auto. exists v, v'. auto. Qed.
+Theorem C07_forced_unstake_burns_the_whole_remainder MA s a v s' : pool_ok MA s -> get_val s a = Some v -> force_unstake s a v = Some s' ->
+  removed MA s s' a (stk v) /\ exists v', get_val s' a = Some v' /\ v_status v' = 0%N /\ v_tokens v' = 0.
+Proof. exact (force_unstake_exact MA s a v s'). Qed.
 Example C07_ex : match ex_genesis with
   | Some (s, _) => match slash s A1 0 2 (P / 4) with
                    | SOk s' => option_map v_tokens (get_val s' A1) = Some 1500000 /\ supply s' = supply s - 500000
@@ -25,3 +44,4 @@ Example C07_ex : match ex_genesis with
 Proof. vm_compute. split; reflexivity. Qed.
 Print Assumptions C07_slash_amount_exact.
 Print Assumptions C07_slash_conserves.
+Print Assumptions C07_slash_exact.
